@@ -169,3 +169,61 @@ class Serial(Harness):
 
 
 register(Serial())
+
+
+class SerialSymNames(Harness):
+    """Node and output names as solver variables through the dict round-trip (pure Python, so the strings stay symbolic)."""
+
+    name = "serial-symnames"
+    engine = "E1-crosshair"
+    properties = ("C12",)
+    rule = "one path = one feasible combination of branch outcomes over symbolic node and output names; every path has 3 nodes"
+    assumptions = ["names are strings over the stated alphabet and length bound; node names unique"]
+    outside = ["names longer than the bound or over other alphabets; the JSON and file paths (C code) are driven with palette names only"]
+    ALPHA = "t0"
+    _paths = 0
+
+    def shards(self, tier):
+        L = 2 if tier == "quick" else 3
+        return [{"len": L, "shape": s} for s in ("chain", "named-output", "terminal-with-output")]
+
+    def budget(self, tier):
+        return 200.0 if tier == "quick" else 900.0
+
+    def per_path_timeout(self, tier):
+        return 60.0
+
+    def bounds(self, tier):
+        return {"name_alphabet": self.ALPHA, "name_len": "1..2" if tier == "quick" else "1..3", "graphs": "3 nodes: a -> b -> c, with default or named outputs"}
+
+    def functions(self):
+        return [export.serialise, export.deserialise, Node.serialise, Graph.nodes]
+
+    def body(self, ch, params):
+        A = ch.str("A", params["len"], self.ALPHA)
+        B = ch.str("B", params["len"], self.ALPHA)
+        O = ch.str("O", params["len"], self.ALPHA)
+        ch.assume(len(A) >= 1 and len(B) >= 1 and len(O) >= 1 and A != B)
+        shape = params["shape"]
+        a = Node(A, outputs=[O, "zz"], payload="pa") if shape != "chain" else Node(A, payload="pa")
+        b = Node(B, payload="pb", x=a.get_output(O) if shape != "chain" else a)
+        if shape == "terminal-with-output":
+            c = Node("c", outputs=[O], payload="pc", i=b, j=a.get_output("zz"))
+        else:
+            c = Node("c", outputs=[], payload="pc", i=b, j=(a.get_output("zz") if shape != "chain" else a))
+        g = Graph([c])
+        want = graphgen.structure(g)
+        try:
+            g2 = export.deserialise(export.serialise(g))
+            got = graphgen.structure(g2)
+        except Violation:
+            raise
+        except Exception as e:
+            raise Violation(f"dict-raised-{type(e).__name__}", str(e)[:200])
+        if got != want:
+            raise Violation("dict-structure-differs", "round-trip of a graph with solver-chosen names changed its structure")
+        SerialSymNames._paths += 1
+        ch.note("fingerprint", ("path", shape, SerialSymNames._paths))
+
+
+register(SerialSymNames())
